@@ -66,13 +66,26 @@ func c10visitsAll(c *core.Check) {
 		c.Bad("bitset-visits-all", key+"/callback", c.Prog.Rel(fd.Pos()), "GenIfNotSet never calls its callback with an element: no required-field test is generated")
 		return
 	}
+	recvName := "g"
+	if fd.Recv != nil && len(fd.Recv.List) == 1 && len(fd.Recv.List[0].Names) == 1 {
+		recvName = fd.Recv.List[0].Names[0].Name
+	}
 	isBound := func(e ast.Expr, v types.Object) bool {
 		be, ok := ast.Unparen(e).(*ast.BinaryExpr)
 		if !ok || be.Op != token.LSS {
 			return false
 		}
 		x, ok := be.X.(*ast.Ident)
-		return ok && info.Uses[x] == v && rules.ExprString(be.Y) == "g.i"
+		if !ok || info.Uses[x] != v {
+			return false
+		}
+		// the bound is the element counter field `i` of a bitsetCodeGen, whatever the variable is called
+		if se, isSel := ast.Unparen(be.Y).(*ast.SelectorExpr); isSel && se.Sel.Name == "i" {
+			if sel, okSel := info.Selections[se]; okSel && sel.Kind() == types.FieldVal && strings.HasSuffix(sel.Recv().String(), "bitsetCodeGen") {
+				return true
+			}
+		}
+		return rules.ExprString(be.Y) == recvName+".i"
 	}
 	g := rules.CFG(info, fd.Body, nil)
 	var ordered []types.Object
@@ -155,7 +168,7 @@ func c10visitsAll(c *core.Check) {
 		} else if modsOK && !exitOK {
 			bad = exitWhy
 		}
-		c.Decide(ok, "bitset-visits-all", vkey, where, "counter starts at 0, advances only past elements it reported, and every exit follows a failed `"+v.Name()+" < g.i`: every registered element gets its test",
+		c.Decide(ok, "bitset-visits-all", vkey, where, "counter starts at 0, advances only past elements it reported, and every exit follows a failed `"+v.Name()+" < "+recvName+".i`: every registered element gets its test",
 			"cannot establish that every registered element is tested: "+bad+" — FastRead would accept a message that lacks some required field")
 	}
 	c.Min("bitset-visits-all", 2)
